@@ -22,7 +22,7 @@ Variable c : cfg.
 Variable lb : N * N.
 
 Lemma m_backup {A} v st (k : act A) (Q : A -> store -> Prop) v0 :
-  Mq lb v st -> (forall st', Mq lb v st' -> wp (M lb) k st' Q) -> wp (M lb) (backup c v0 k) st Q.
+  Mq lb v st -> (forall st', Mq lb v st' -> wp true (M lb) k st' Q) -> wp true (M lb) (backup c v0 k) st Q.
 Proof.
   intros HM Hk. unfold backup. destruct (reqSized c); [now apply Hk|].
   cbn [wp]. pose proof (Mq_si lb v st (Z.to_N (qsize v0)) HM) as H2.
@@ -30,10 +30,10 @@ Proof.
 Qed.
 
 Lemma m_put v st x :
-  Mq lb v st -> wp (M lb) (putInternal c v x) st (fun y st' => Mq lb (fst y) st' /\ cdi (fst y) = cdi v).
+  Mq lb v st -> wp true (M lb) (putInternal c v x) st (fun y st' => Mq lb (fst y) st' /\ cdi (fst y) = cdi v).
 Proof.
   intros HM.
-  apply (wp_put c (M lb) (fun v' st' => Mq lb v' st' /\ cdi v' = cdi v)).
+  apply (wp_put c true (M lb) (fun v' st' => Mq lb v' st' /\ cdi v' = cdi v)).
   - intros v' st' (H & _). eapply Mq_M; eauto.
   - intros v' st' n (H & E). split; [now apply Mq_si|exact E].
   - intros q. destruct HM as ((A & B & C) & D & E). split; [|reflexivity]. split; [|cbn; split; lia].
@@ -43,7 +43,7 @@ Proof.
 Qed.
 
 Lemma m_finish v st index :
-  Mq lb v st -> wp (M lb) (itemDispatchingFinish v index) st (fun v' st' => Mq lb v' st').
+  Mq lb v st -> wp true (M lb) (itemDispatchingFinish v index) st (fun v' st' => Mq lb v' st').
 Proof.
   intros HM. unfold itemDispatchingFinish. cbn [wp].
   change (fst (apply_ops [SetDi (swap_remove index (cdi v)); DelItem index] st))
@@ -54,7 +54,7 @@ Proof.
 Qed.
 
 Lemma m_getNext v st :
-  Mq lb v st -> ri v < wi v -> wp (M lb) (getNextItem v) st (fun y st' => Mq lb (fst y) st').
+  Mq lb v st -> ri v < wi v -> wp true (M lb) (getNextItem v) st (fun y st' => Mq lb (fst y) st').
 Proof.
   intros HM Hlt. destruct HM as ((A & B & C) & D & E). unfold getNextItem. cbn [wp].
   change (fst (apply_ops [SetIdx KRi (ri (set_ri_cdi v (ri v + 1) (cdi v ++ [ri v])));
@@ -76,7 +76,7 @@ Proof.
 Qed.
 
 Lemma m_read_loop fuel : forall v st,
-  Mq lb v st -> wp (M lb) (read_loop fuel v) st (fun y st' => Mq lb (fst y) st').
+  Mq lb v st -> wp true (M lb) (read_loop fuel v) st (fun y st' => Mq lb (fst y) st').
 Proof.
   induction fuel as [|f IH]; intros v st HM; cbn [read_loop].
   - destruct (N.eqb (ri v) (wi v)); cbn [wp fst]; exact HM.
@@ -91,16 +91,16 @@ Proof.
 Qed.
 
 Lemma m_onDone v st index sz oc :
-  Mq lb v st -> wp (M lb) (onDone c v index sz oc) st (fun v' st' => Mq lb v' st').
+  Mq lb v st -> wp true (M lb) (onDone c v index sz oc) st (fun v' st' => Mq lb v' st').
 Proof.
   intros HM. unfold onDone.
   set (v1 := set_q v (Z.max 0 (qsize v - sz))).
   assert (H1 : Mq lb v1 st) by (eapply Mq_ext; [| |exact HM]; reflexivity).
   assert (Fin : forall v2 st2, Mq lb v2 st2 ->
-     wp (M lb) (if N.eqb (ri v2 mod 10) 0 then backup c v2 (Done (unref v2)) else Done (unref v2)) st2
+     wp true (M lb) (if N.eqb (ri v2 mod 10) 0 then backup c v2 (Done (unref v2)) else Done (unref v2)) st2
         (fun v' st' => Mq lb v' st')).
   { intros v2 st2 H2.
-    assert (D : forall st', Mq lb v2 st' -> wp (M lb) (Done (unref v2)) st' (fun v' st' => Mq lb v' st')).
+    assert (D : forall st', Mq lb v2 st' -> wp true (M lb) (Done (unref v2)) st' (fun v' st' => Mq lb v' st')).
     { intros st' H'. cbn [wp]. eapply Mq_ext; [| |exact H']; reflexivity. }
     destruct (N.eqb (ri v2 mod 10) 0); [|now apply D]. eapply m_backup; eauto. }
   destruct oc.
@@ -112,10 +112,11 @@ Proof.
 Qed.
 
 Lemma m_run_op v outs st o :
-  Mq lb v st -> wp (M lb) (run_op c (v, outs) o) st (fun x st' => Mq lb (fst (fst x)) st').
+  Mq lb v st -> wp true (M lb) (run_op c (v, outs) o) st (fun x st' => Mq lb (fst (fst x)) st').
 Proof.
   intros HM. destruct o as [x| |k oc|]; cbn [run_op].
-  - apply wp_bind. eapply wp_mono; [intros s0 Hs0; exact Hs0| |apply (m_put v st x HM)].
+  - destruct (would_wait c v x); [cbn [wp fst]; exact HM|].
+    apply wp_bind. eapply wp_mono; [intros s0 Hs0; exact Hs0| |apply (m_put v st x HM)].
     intros y st' (H & _). cbn [wp fst]. exact H.
   - apply wp_bind. unfold readQ. destruct (stopped v); [cbn [wp fst snd]; exact HM|].
     eapply wp_mono; [intros s0 Hs0; exact Hs0| |apply (m_read_loop _ v st HM)].
@@ -132,14 +133,14 @@ Lemma m_script ops : forall b st v outs evs obs,
 Proof.
   induction ops as [|o ops IH]; intros b st v outs evs obs HM; cbn [run_script].
   - cbn [i_store]. eapply Mq_M; eauto.
-  - pose proof (wp_run _ _ st _ b (Mq_M _ _ _ HM) (m_run_op v outs st o HM)) as HR.
+  - pose proof (wp_run _ _ _ st _ b (Mq_M _ _ _ HM) (m_run_op v outs st o HM)) as HR.
     destruct (run_act b st (run_op c (v, outs) o)) as [[st1 b1] [[[v1 outs1] r]|]].
     + cbn [fst] in HR. now apply IH.
     + cbn [i_store]. exact HR.
 Qed.
 
 Lemma m_reenqueue todo : forall v st dels errc,
-  Mq lb v st -> wp (M lb) (reenqueue c v todo dels errc) st (fun y st' => Mq lb (fst y) st').
+  Mq lb v st -> wp true (M lb) (reenqueue c v todo dels errc) st (fun y st' => Mq lb (fst y) st').
 Proof.
   induction todo as [|[i val] t IH]; intros v st dels errc HM; cbn [reenqueue].
   - cbn [wp]. rewrite apply_dels. cbn [fst].
@@ -147,13 +148,14 @@ Proof.
     { destruct HM as ((A & B & C) & D). split; [|exact D]. repeat split; auto. }
     split; [eapply Mq_M; exact H2|exact H2].
   - destruct val as [[n|l|r]|]; try (now apply IH).
+    destruct (would_wait c v r); [reflexivity|].
     apply wp_bind. eapply wp_mono; [intros s0 Hs0; exact Hs0| |apply (m_put v st r HM)].
     intros [v' ok] st' (H & _). cbn [fst snd] in *. destruct ok; [now apply IH|].
     apply IH. eapply Mq_ext; [| |exact H]; reflexivity.
 Qed.
 
 Lemma m_initClient st :
-  wf_store st -> M lb st -> wp (M lb) (initClient c) st (fun y st' => Mq lb (fst y) st').
+  wf_store st -> M lb st -> wp true (M lb) (initClient c) st (fun y st' => Mq lb (fst y) st').
 Proof.
   intros (Hle & Hwn & _) HM. unfold initClient. apply wp_bind.
   unfold initStorage. cbn [wp].
@@ -167,7 +169,7 @@ Proof.
   assert (Erw : eff st = rw) by (unfold eff, rw; destruct (s_ri st), (s_wi st); reflexivity).
   destruct rw as [r w]. rewrite Erw in Hle. cbn [fst snd] in Hle.
   assert (K : forall v, ri v = r -> wi v = w ->
-              wp (M lb) (retrieveAndEnqueue c v) st (fun y st' => Mq lb (fst y) st')).
+              wp true (M lb) (retrieveAndEnqueue c v) st (fun y st' => Mq lb (fst y) st')).
   { intros v Er Ew.
     assert (HMq : Mq lb v st).
     { unfold M, eff_le in HM. rewrite Erw in HM. cbn [fst snd] in HM. split; [|rewrite Er, Ew; exact HM].
@@ -188,7 +190,7 @@ Lemma m_incarnation st sc b :
   wf_store st -> M lb st -> M lb (i_store (incarnation c st sc b)).
 Proof.
   intros W HM. unfold incarnation.
-  pose proof (wp_run _ _ st _ b HM (m_initClient st W HM)) as HR.
+  pose proof (wp_run _ _ _ st _ b HM (m_initClient st W HM)) as HR.
   destruct (run_act b st (initClient c)) as [[st1 b1] [[v errc]|]].
   - cbn [fst] in HR. now apply m_script.
   - cbn [i_store]. exact HR.
